@@ -96,5 +96,8 @@ TEXT = {
     'C12': ('Verus proves the type-predicate kernel: is_type(type_of(v), v) and is_type(anything, v) hold for every value, '
             'number accepts every numeric level, and builtin types classify by constructor.'),
 }
+BOUNDED_NOTE = (' In addition a BOUNDED stand-in (a grid of programs run on the real interpreter built from the tree, compared with exact '
+                'reference semantics; bounds in evidence coverage.bounded) covers the functions this property depends on that no verifier '
+                'reaches; it is labelled bounded and not counted as proved.')
 NOTE = ('trusted: Verus/Z3; the prelude\'s assumed contracts on num-bigint/num-rational/f64/std (listed in evidence '
         'coverage.trusted_base); functions not named in vc/units are not verified')
